@@ -48,18 +48,20 @@ def go_env():
     return env
 
 
-def harness_dir():
-    """The harness module to build from. With VERIF_REPO=<dir> (a scratch worktree of the repository, used for
+def harness_dir(p=None):
+    """The harness module to build from (registry key "module" selects a sibling module such as harness_store). With VERIF_REPO=<dir> (a scratch worktree of the repository, used for
     sensitivity runs against seeded changes) a copy of the harness whose go.mod points at <dir> is used, so /repo
     itself is never touched."""
+    module = (p or {}).get("module", "harness")
+    src = os.path.join(ROOT, module)
     repo = os.environ.get("VERIF_REPO")
     if not repo:
-        return HARNESS
+        return src
     repo = os.path.abspath(repo)
     tag = re.sub(r"[^A-Za-z0-9]+", "_", repo).strip("_")
-    dst = os.path.join(WORK, "harness-" + tag)
+    dst = os.path.join(WORK, module + "-" + tag)
     os.makedirs(WORK, exist_ok=True)
-    subprocess.run(["rsync", "-a", "--delete", "--exclude", "testdata/rapid", HARNESS + "/", dst + "/"], check=True)
+    subprocess.run(["rsync", "-a", "--delete", "--exclude", "testdata/rapid", src + "/", dst + "/"], check=True)
     gm = open(os.path.join(dst, "go.mod")).read().replace("=> /repo", "=> " + repo)
     open(os.path.join(dst, "go.mod"), "w").write(gm)
     return dst
@@ -86,7 +88,7 @@ def build(p, quiet=True):
         cmd += ["-tags", p["tags"]]
     cmd.append("./" + p["pkg"] + "/")
     t0 = time.time()
-    r = subprocess.run(cmd, cwd=harness_dir(), env=go_env(), stdout=subprocess.PIPE, stderr=subprocess.STDOUT, text=True)
+    r = subprocess.run(cmd, cwd=harness_dir(p), env=go_env(), stdout=subprocess.PIPE, stderr=subprocess.STDOUT, text=True)
     if r.returncode != 0:
         sys.stdout.write(r.stdout)
         return None
@@ -155,7 +157,7 @@ def run_fuzz(pid, p, tier, workdir):
                "-fuzztime", f"{tgt.get('seconds', 60)}s", "./" + p["pkg"] + "/", "-test.fuzzcachedir", cache]
         if p.get("tags"):
             cmd[2:2] = ["-tags", p["tags"]]
-        r = subprocess.run(cmd, cwd=harness_dir(), env=go_env(), stdout=subprocess.PIPE, stderr=subprocess.STDOUT,
+        r = subprocess.run(cmd, cwd=harness_dir(p), env=go_env(), stdout=subprocess.PIPE, stderr=subprocess.STDOUT,
                            text=True, timeout=tgt.get("seconds", 60) + 600)
         execs = 0
         for m in re.finditer(r"execs: (\d+)", r.stdout):
@@ -168,7 +170,7 @@ def run_fuzz(pid, p, tier, workdir):
             m = re.search(r"Failing input written to (\S+)", r.stdout)
             crash = None
             if m:
-                src = os.path.join(harness_dir(), p["pkg"], m.group(1)) if not os.path.isabs(m.group(1)) else m.group(1)
+                src = os.path.join(harness_dir(p), p["pkg"], m.group(1)) if not os.path.isabs(m.group(1)) else m.group(1)
                 os.makedirs(REPLAYS, exist_ok=True)
                 crash = os.path.join(REPLAYS, f"{pid}-fuzz-{tgt['name']}-{os.path.basename(src)}")
                 try:
@@ -276,6 +278,24 @@ def check(pid, tier):
         print(f"VIOLATION property={pid} replay={c['replay']}")
         print("  native fuzz target " + c["target"] + "\n  " + c["tail"][-800:].replace("\n", "\n  "))
         rc = 1
+    if rc == 0 and p.get("race"):
+        for i, code in results:
+            if code == 0:
+                continue
+            try:
+                log = open(os.path.join(workdir, f"log{i}.txt")).read()
+            except OSError:
+                continue
+            if "DATA RACE" in log:
+                os.makedirs(REPLAYS, exist_ok=True)
+                rp = os.path.join(REPLAYS, f"{pid}-data-race.txt")
+                j = log.find("WARNING: DATA RACE")
+                open(rp, "w").write(log[max(0, j):j + 12000])
+                print(f"VIOLATION property={pid} replay={rp}")
+                print(f"  key={pid}/data-race")
+                print("  " + log[j:j + 1500].replace("\n", "\n  "))
+                rc = 1
+                break
     if rc == 0:
         bad = [(i, code) for i, code in results if code != 0]
         incomplete = [s for s in shards if not s.get("completed")]
